@@ -1617,6 +1617,26 @@ fn gen_c11(lvl: u8) -> Vec<Scenario> {
         n += 1;
         out.push(scn(format!("c11-{n}-concurrent-spawn"), vec![a1, a2, a3], vec![c(0), c(1), c(2)], &[]));
     }
+    // every strong handle is dropped while an accepted stop request (or an accepted tell) is still queued behind a
+    // busy handler: a weak handle still upgrades
+    for queued in 0..2 {
+        for cap in [2usize, 3] {
+            let mut ids = Ids(0);
+            let a = ActorSpec::plain(cap);
+            let mut slow = MsgSpec::m1(ids.next()).steps(vec![Step::Sleep(20)]);
+            slow.entry_yield = false;
+            let mut steps = vec![send(SendKind::Tell, 0, slow), Step::Sleep(1), Step::Downgrade { from: 0, to: 2 }];
+            steps.push(if queued == 0 { Step::Stop(0) } else { send(SendKind::Tell, 0, MsgSpec::quick(ids.next())) });
+            steps.push(Step::Fuse);
+            steps.push(Step::DropH(0));
+            steps.push(Step::Upgrade { from: 2, to: 1 });
+            steps.push(Step::Ident(1));
+            steps.push(Step::DropH(1));
+            let c0 = Program::new(vec![(0, 0)], steps);
+            n += 1;
+            out.push(scn(format!("c11-{n}-unreferenced-but-{}-queued-cap{cap}", if queued == 0 { "stop" } else { "tell" }), vec![a], vec![c0], &[]));
+        }
+    }
     out
 }
 
